@@ -13,7 +13,8 @@ CAP = {'quick': 600, 'thorough': 1500}
 META = {
     'rule': ('cases: the standard context stream (one- and two-concept lattices, decorations that '
              'put several labels on one node) plus tables with DOT-hostile labels (quotes, '
-             'brackets, "->", "=", ";", spaces, non-ASCII). Events: every Lattice.graphviz() call; '
+             'brackets, "->", "=", ";", spaces, non-ASCII) plus Boolean lattices of 2 048 (quick) / 1 024, 4 096, '
+             '16 384 (thorough) concepts (node names with four and five digits). Events: every Lattice.graphviz() call; '
              'each table is exported twice, with recording label callbacks (opaque token returned, '
              'names remembered; also behind the shapes user callbacks come in: plain function, lambda or '
              'method with defaulted options after the names, functools.partial, keyword-only options, '
@@ -365,6 +366,10 @@ def hostile_cases(seed, count):
 
 
 def cases(tier, seed, spec):
+    # node names with four and five digits (c1000, c10000 ...): Boolean lattices of 2 048 - 16 384 concepts
+    for n in ((11,) if tier == 'quick' else (10, 12, 14)):
+        full = (1 << n) - 1
+        yield gen.case(f'BIGDOT:contranominal{n}', [full & ~(1 << i) for i in range(n)], n, 'rev')
     yield from hostile_cases(seed, 150 if tier == 'quick' else 3000)
     yield from gen.ctx_stream(tier, seed, with_wide=(tier == 'thorough'))
 
@@ -375,12 +380,20 @@ def run_case(concepts, case, spec):
     if ctx is None:
         return
     sh = attach.shadow_of(ctx)
+    bigdot = case['fam'].startswith('BIGDOT')
+    if bigdot:
+        sh.cap_override = 70000
+        COL.count('bigdot_cases')
     sl = sh.lattice(CAP[spec['tier']])
-    if sl.n > 400:
+    if sl.n > 400 and not bigdot:
         raise core.CaseTooLarge(sl.n)
     lat = common.get_lattice(ctx)
     if lat is RAISED:
         COL.count('lattice_construction_raised')
+        return
+    if bigdot:
+        call(lat.graphviz)
+        call(lat.graphviz, make_object_label=Recorder('O'), make_property_label=shaped(Recorder('P'), 2))
         return
     if case['fam'] == 'HOSTILE':
         COL.count('hostile_label_tables')
